@@ -263,6 +263,72 @@ pub fn tool(cmd: &str, args: &[String]) -> i32 {
                 None => { println!("NO-WITNESS (bounded directed search: special public keys and perturbed encodings, both variants)"); 0 }
             }
         }
+        "model-bitvec" => {
+            // cross-check of the dependency models used by the Verus units against the real crates:
+            // bit_vec::BitVec (from_bytes MSB first, len, index, get, push, append, to_bytes zero padded),
+            // itertools chunks over its iterator with skip / take, num_integer div_mod_floor, usize::ilog2.
+            use bit_vec::BitVec;
+            use itertools::Itertools;
+            use num::Integer;
+            let mut st: u64 = args.get(0).and_then(|s| s.parse().ok()).unwrap_or(1u64) | 1;
+            let mut rnd = move || { st ^= st << 13; st ^= st >> 7; st ^= st << 17; st };
+            let bit = |x: &[u8], p: usize| (x[p / 8] >> (7 - p % 8)) & 1 == 1;
+            let mut cases = 0u64;
+            let mut check = |x: &[u8]| -> Result<(), String> {
+                let bv = BitVec::from_bytes(x);
+                if bv.len() != 8 * x.len() { return Err("from_bytes length".into()); }
+                for p in 0..bv.len() { if bv[p] != bit(x, p) || bv.get(p) != Some(bit(x, p)) { return Err(format!("bit {} of from_bytes", p)); } }
+                if bv.get(bv.len()).is_some() { return Err("get past the end".into()); }
+                if bv.to_bytes() != x { return Err("to_bytes(from_bytes(x)) != x".into()); }
+                // push / append / to_bytes zero padding
+                let mut a = BitVec::new();
+                for p in 0..bv.len().min(13) { a.push(bv[p]); }
+                let mut b2 = BitVec::from_bytes(&[0xa5]);
+                let alen = a.len();
+                a.append(&mut b2);
+                if a.len() != alen + 8 || b2.len() != 0 { return Err("append lengths".into()); }
+                let packed = a.to_bytes();
+                if packed.len() != (a.len() + 7) / 8 { return Err("to_bytes length".into()); }
+                for p in 0..8 * packed.len() { let want = if p < a.len() { a[p] } else { false }; if bit(&packed, p) != want { return Err("to_bytes bits / padding".into()); } }
+                // chunks with skip / take
+                for (skip, take, w) in [(0usize, usize::MAX, 14usize), (3, 11, 5), (8, 12, 6), (0, 7, 8), (40, 5, 5)] {
+                    let real: Vec<Vec<bool>> = bv.iter().skip(skip).take(take).chunks(w).into_iter().map(|c| c.collect_vec()).collect_vec();
+                    let lo = skip.min(bv.len());
+                    let hi = if take == usize::MAX { bv.len() } else { (lo + take).min(bv.len()) };
+                    let nch = (hi - lo + w - 1) / w;
+                    if real.len() != nch { return Err(format!("number of chunks skip={} take={} w={}", skip, take, w)); }
+                    for c in 0..nch {
+                        let a0 = lo + c * w; let b0 = (a0 + w).min(hi);
+                        let want: Vec<bool> = (a0..b0).map(|p| bv[p]).collect();
+                        if real[c] != want { return Err(format!("chunk {} skip={} take={} w={}", c, skip, take, w)); }
+                    }
+                }
+                Ok(())
+            };
+            let mut fail: Option<String> = None;
+            'outer: for a in 0..=255u8 {
+                cases += 1;
+                if let Err(e) = check(&[a]) { fail = Some(format!("{} on [{:02x}]", e, a)); break; }
+                for b in (0..=255u8).step_by(5) {
+                    cases += 1;
+                    if let Err(e) = check(&[a, b]) { fail = Some(format!("{} on [{:02x},{:02x}]", e, a, b)); break 'outer; }
+                }
+            }
+            if fail.is_none() {
+                for _ in 0..300 {
+                    let len = (rnd() % 40) as usize;
+                    let x: Vec<u8> = (0..len).map(|_| rnd() as u8).collect();
+                    cases += 1;
+                    if let Err(e) = check(&x) { fail = Some(format!("{} on {}", e, hex(&x))); break; }
+                }
+            }
+            for n in 0..70000usize { let (d, m) = n.div_mod_floor(&8); if d != n / 8 || m != n % 8 { fail = Some(format!("div_mod_floor({}, 8)", n)); break; } }
+            for (n, l) in [(512usize, 9u32), (1024, 10), (625, 9), (1239, 10), (1, 0), (2, 1)] { if n.ilog2() != l || n.checked_ilog2() != Some(l) { fail = Some(format!("ilog2({})", n)); } }
+            match fail {
+                Some(f) => { println!("MODEL-MISMATCH {}", f); 1 }
+                None => { println!("MODEL-OK bit_vec / itertools chunks / div_mod_floor / ilog2 agree with the Verus-side models on {} cases", cases); 0 }
+            }
+        }
         "search-verify" => {
             let seed: u64 = args.get(0).and_then(|s| s.parse().ok()).unwrap_or(0);
             let w = crate::falcon::verif::search_verify::<512>(seed)
